@@ -378,6 +378,20 @@ func c13r2(r *R) {
 	o2.Check(guardOkOn(gs, "newWriterAndRequest("), "a handler can be scheduled although building the request failed; guards %v", gs)
 	// arguments: the stream id of this frame, the writer/request just built, the selected handler
 	a := callOf(sh[0]).Args
+	if len(a) == 2 {
+		// the four values bundled in one unstartedHandler literal
+		if ld, ok := a[1].(*ssa.UnOp); ok {
+			if al, ok := ld.X.(*ssa.Alloc); ok {
+				f := complitFields(al)
+				if f["streamID"] != nil && f["rw"] != nil && f["req"] != nil && f["handler"] != nil {
+					a = []ssa.Value{a[0], f["streamID"], f["rw"], f["req"], f["handler"]}
+				}
+			}
+		}
+	}
+	if !o2.Check(len(a) == 5, "scheduleHandler is called with %d arguments, want (stream id, writer, request, handler)", len(a)-1) {
+		return
+	}
 	o2.Check(c.Expr(a[1]) == id, "scheduleHandler gets stream id %s", c.Expr(a[1]))
 	o2.Check(strings.HasSuffix(c.Expr(a[2]), ")#0") && strings.HasSuffix(c.Expr(a[3]), ")#1") && strings.Contains(c.Expr(a[2]), "newWriterAndRequest("), "scheduleHandler gets (%s, %s)", c.Expr(a[2]), c.Expr(a[3]))
 	// handler selection: phi of user handler / 431 / 400
